@@ -1,6 +1,7 @@
 """Per-property checks built from the shared pipeline (bindings A and B of DESIGN.md section 2)."""
 import json
 import os
+import sys
 import time
 
 import gen
@@ -156,9 +157,176 @@ def family_pipeline(fam, progs, outdir, cap=20000, do_mc=True, workers=8, max_di
     return {"summary": summary, "problems": problems, "meta": meta}
 
 
+
+# ---------------------------------------------------------------------------------------------
+# Property table.  Each stage: (family, programs quick, programs thorough, do_mc)
+
+def F(fam, q, t, mc=True):
+    return {"fam": fam, "quick": q, "thorough": t, "mc": mc}
+
+
+SHUTTLE_PROPS = {
+    "C03": {"stages": [F("mutex", 14, 120), F("condvar", 14, 120), F("park", 20, 150), F("mpsc", 14, 120),
+                       F("corpus_deadlock", 0, 0)],
+            "assume": ["termination oracle = derived Status (DESIGN 4.1); tasks<=3, ops<=3 (quick)"]},
+    "C04": {"stages": [F("mutex", 20, 200), F("rwlock", 16, 150), F("atomic", 20, 200), F("corpus_locks", 0, 0)],
+            "assume": ["8-bit atomics in the specification; all orderings treated as SeqCst (Shuttle's documented model)"]},
+    "C05": {"stages": [F("condvar", 18, 200), F("barrier", 20, 150), F("barrier_reuse", 12, 100), F("once", 16, 150),
+                       F("park", 20, 150), F("corpus_sync", 0, 0)],
+            "assume": ["condvar waits never wake spuriously, park may; barrier leader = arrival completing the group"]},
+    "C06": {"stages": [F("mpsc", 30, 300), F("mpsc_drop", 30, 300), F("corpus_mpsc", 0, 0)],
+            "assume": ["blocked senders/receivers are served FIFO (Shuttle's documented model)"]},
+    "C08": {"stages": [F("kernel", 14, 150), F("mutex", 14, 120), F("park", 20, 150)],
+            "assume": ["observed through a recording Scheduler wrapper placed inside the runtime's MetricsScheduler"]},
+    "C18": {"stages": [F("sem_unfair", 20, 200), F("sem_fair", 20, 200), F("sem_unfair_obs", 16, 150, mc=False),
+                       F("sem_fair_obs", 16, 150, mc=False)],
+            "assume": ["blocking acquires only (async/cancel family: see C17/C18 growth)"]},
+}
+
+# which problem kinds count for which property
+OWN_KINDS = {"trace-rejected", "outcome-missing-in-spec", "nondeterminism", "harness-crash", "tlc-error"}
+
+
+def stage_programs(fam, n):
+    import corpus
+    if fam.startswith("corpus_"):
+        return corpus.get(fam)
+    return gen.family(fam, n, vlib.seed())
+
+
+def cached_pipeline(fam, progs, tier, cap, do_mc):
+    """Family results are shared between the checks of one tree: the key covers the harness binary
+    (rebuilt from /repo's working tree just before), the specification, the tools and the programs."""
+    import hashlib
+    key = hashlib.sha256(json.dumps([vlib.bin_hash(), vlib.spec_hash(), fam, tier, cap, do_mc, progs],
+                                    sort_keys=True).encode()).hexdigest()[:24]
+    cdir = os.path.join(vlib.WORK, "cache")
+    os.makedirs(cdir, exist_ok=True)
+    cfile = os.path.join(cdir, key + ".json")
+    if os.path.exists(cfile) and not os.environ.get("VERIF_NOCACHE"):
+        try:
+            r = json.load(open(cfile))
+            r["cached"] = True
+            return r
+        except Exception:
+            pass
+    out = os.path.join(vlib.WORK, f"run-{fam}-{tier}")
+    r = family_pipeline(fam, progs, out, cap=cap, do_mc=do_mc)
+    r.pop("meta", None)
+    # keep a few sample traces for the evidence
+    r["sample"] = sample_trace(out)
+    with open(cfile + ".tmp", "w") as f:
+        json.dump(r, f)
+    os.replace(cfile + ".tmp", cfile)
+    r["cached"] = False
+    return r
+
+
+def sample_trace(outdir, maxlen=40):
+    try:
+        nodes, parent = vlib.load_trie(outdir)
+    except Exception:
+        return None
+    for i in range(len(nodes) - 1, 0, -1):
+        if not nodes[i]["kids"]:
+            path = vlib.path_to(nodes, parent, i)
+            return [nodes[n]["ev"] for n in path][:maxlen]
+    return None
+
+
+def match_known(pid, sig, known):
+    for k in known.get("open", []):
+        if k["property"] == pid and k["sig"] == sig:
+            return k
+    return None
+
+
 def run_property(pid, tier):
-    raise vlib.ToolError(f"no check registered for {pid}")
+    if pid not in SHUTTLE_PROPS:
+        raise vlib.ToolError(f"no check registered for {pid}")
+    t0 = time.time()
+    vlib.build_harness()
+    spec = SHUTTLE_PROPS[pid]
+    known = vlib.load_known()
+    cap = 4000 if tier == "quick" else 200000
+    totals = {}
+    problems = []
+    samples = []
+    fams = []
+    for st in spec["stages"]:
+        n = st[tier]
+        progs = stage_programs(st["fam"], n)
+        if not progs:
+            continue
+        r = cached_pipeline(st["fam"], progs, tier, cap, st["mc"])
+        fams.append(r["summary"])
+        for k, v in r["summary"].items():
+            if isinstance(v, (int, float)) and k not in ("wall",) and not k.startswith("t_"):
+                totals[k] = totals.get(k, 0) + v
+        for pr in r["problems"]:
+            if pr["kind"] in OWN_KINDS:
+                problems.append(pr)
+        if r.get("sample"):
+            samples.append({"family": st["fam"], "program": progs[-1], "trace": r["sample"]})
+    return finish(pid, tier, t0, spec, totals, fams, problems, samples, known)
+
+
+def finish(pid, tier, t0, spec, totals, fams, problems, samples, known, extra_cov=None):
+    violations = 0
+    known_hit = []
+    rdir = os.path.join(vlib.WORK, "replays")
+    os.makedirs(rdir, exist_ok=True)
+    seen_sig = set()
+    for pr in problems:
+        k = match_known(pid, pr["sig"], known)
+        if k:
+            if k["sig"] not in known_hit:
+                known_hit.append(k["sig"])
+                print(f"KNOWN-FINDING: property={pid} {k['sig']} -- {k['what']}")
+            continue
+        if pr["sig"] in seen_sig:
+            continue
+        seen_sig.add(pr["sig"])
+        violations += 1
+        rp = os.path.join(rdir, f"{pid}-{violations}.json")
+        with open(rp, "w") as f:
+            json.dump({"property": pid, "problem": pr}, f, indent=1)
+        print(fmt_problem(pr), file=sys.stderr)
+        print(f"VIOLATION property={pid} replay={rp}")
+    cov = {"states": int(totals.get("trace_states", 0) + totals.get("mc_states", 0)),
+           "transitions": int(totals.get("trace_transitions", 0) + totals.get("mc_transitions", 0)),
+           "traces_validated_against_impl": int(totals.get("leaves_reached", 0)),
+           "programs": int(totals.get("programs", 0)),
+           "executions_enumerated": int(totals.get("executions", 0)),
+           "trie_nodes": int(totals.get("trie_nodes", 0)),
+           "leaves": int(totals.get("leaves", 0)),
+           "spec_outcomes": int(totals.get("spec_outcomes", 0)),
+           "impl_outcomes": int(totals.get("impl_outcomes", 0)),
+           "outcomes_missing_in_spec": int(totals.get("outcomes_missing_in_spec", 0)),
+           "exhaustive": totals.get("capped", 0) == 0,
+           "programs_capped": int(totals.get("capped", 0)),
+           "families": fams,
+           "known_findings_hit": known_hit,
+           "samples": samples[:4],
+           "checker_cmd": "tlc -config TraceShuttle.cfg TraceShuttle.tla ; tlc -config MCShuttle.cfg MCShuttle.tla"}
+    if extra_cov:
+        cov.update(extra_cov)
+    vlib.write_evidence(pid, tier, "model_checking", cov, spec["assume"], time.time() - t0, violations)
+    log(f"{pid} {tier}: {violations} violation(s), {len(known_hit)} known finding(s), "
+        f"{cov['traces_validated_against_impl']} traces validated, {cov['states']} states, {time.time()-t0:.0f}s")
+    return 1 if violations else 0
 
 
 def replay(path):
-    raise vlib.ToolError("replay not implemented yet")
+    d = json.load(open(path))
+    pr = d["problem"]
+    if "prog" not in pr:
+        print(json.dumps(pr, indent=1))
+        return 2
+    vlib.build_harness()
+    out = os.path.join(vlib.WORK, "replay-run")
+    r = family_pipeline(pr["prog"].get("fam", "replay"), [pr["prog"]], out, cap=200000, do_mc=True)
+    print(json.dumps(r["summary"]))
+    for v in r["problems"]:
+        print(fmt_problem(v))
+    return 1 if r["problems"] else 0
